@@ -142,7 +142,10 @@ class Adm(object):
     st.pop('whitelistRejects', None)
     try:
       if proto == 'pickle':
-        esc = run.feed(wiresys.pickle_frame([(name, ts, value)], 2))
+        # every other pickle frame is what a Python 2 sender writes (the name is a UTF-8 byte string)
+        self.npickle = getattr(self, 'npickle', 0) + 1
+        py2 = self.npickle % 2 == 0 and isinstance(ts, (int, float)) and isinstance(value, (int, float))
+        esc = run.feed(wiresys.py2_pickle_frame([(name, ts, value)]) if py2 else wiresys.pickle_frame([(name, ts, value)], 2))
       else:
         esc = run.feed(('%s %s %s\n' % (name, repr(value), repr(ts))).encode('utf-8'))
       seen = list(run.seen)
